@@ -84,6 +84,22 @@ CLAIMS = {
              "Python harness. Model follows fix commits f14702e (bounds check), bace32e (length prefix), 079d089 (signed int8).",
         technique="Coq proof (nested structural induction, fuelled decoder with termination proof) + translator + correspondence",
         design="4/C14"),
+    "C09": dict(
+        text="Coq theorems (axiom-free): (1) every frame of the six kinds in the domain frame_ok (C13 addresses, "
+             "numbers 0..7, both flag bits, any payload, total length <= 2047) serialises to flag|format|dest|src|control|"
+             "HCS|information|FCS|flag with the 11-bit length of everything between the flags and both check sequences "
+             "equal to the X-25 CRC over the right spans (composition of the C12, C13 and C20 theorems); (2) whatever a "
+             "parser accepts is enclosed by flags, has exactly the announced length and a frame check sequence that is "
+             "correct for the RECEIVED bytes; (3) every truncation or extension (length differing from the carried "
+             "length field) is refused. Partial: parse-after-build and the statement that <=3-bit / <=16-bit-burst "
+             "corruption never alters content are not yet theorems; they are decided on the implementation by fault "
+             "enumeration on every run (every single-bit flip and truncation of every generated frame <= 80 bytes, "
+             "sampled 2-/3-bit flips and bursts), and the model is compared with the implementation on all of these inputs.",
+        note="Partial proof (layout + acceptance soundness + resize refusal proved; round-trip and corruption checked by "
+             "fault enumeration against implementation and model). Model follows fix commits 13a5e7c (check sequences "
+             "over received bytes) and f440141 (segmentation bit kept). Known finding F09b: P/F attribute of SNRM/UA/DISC/RR is not on the wire.",
+        technique="Coq proof (layout, acceptance soundness) + correspondence + exhaustive single-fault enumeration",
+        design="4/C09"),
 }
 
 NOT_YET = "not yet built in this stage of the work; see DESIGN.md section 6 (build order)"
